@@ -483,6 +483,25 @@ def run():
                    "match mlookup (ms_mods ms) (shadowed (ms_scope ms)) %s with [] => false | _ => true end end)") % (ms, idn, cs(mc.site), args, idn, idn)
         cases.append({"stream": "modules", "src": mc.text(), "kind": "module", "pi": None, "coq": coq, "mc": mc, "site": mc.site})
 
+    # (h) the std signature table, EVERY entry (not sampled): one argument too many, an unknown named argument, and -- so
+    #     that the table cannot err on the other side -- exactly the declared positional arguments, and each declared named one
+    if "error" not in info:
+        for path, ps, named in info["sigs"]:
+            f = ".".join(["std"] + list(path))
+            cp = "[" + "; ".join(cs(x) for x in path) + "]"
+            n = len(ps)
+            mk_args = lambda k: "[" + "; ".join(["AScalar"] * k) + "]"
+            ones = lambda k: " ".join(["1"] * k)
+            cases.append({"stream": "std-table", "src": "from t | derive {zz = (%s %s)}" % (f, ones(n + 1)), "kind": "std", "pi": None, "sub": "surplus",
+                          "coq": "call %s %s []" % (cp, mk_args(n + 1)), "fn": f})
+            cases.append({"stream": "std-table", "src": "from t | derive {zz = (%s zzq:1 %s)}" % (f, ones(n)), "kind": "std", "pi": None, "sub": "unknown-named",
+                          "coq": "call %s %s [%s]" % (cp, mk_args(n), cs("zzq")), "fn": f})
+            cases.append({"stream": "std-table", "src": "from t | derive {zz = (%s %s)}" % (f, ones(n)), "kind": "std", "pi": None, "sub": "exact",
+                          "coq": "call %s %s []" % (cp, mk_args(n)), "fn": f})
+            for nm in named:
+                cases.append({"stream": "std-table", "src": "from t | derive {zz = (%s %s:1 %s)}" % (f, nm, ones(n)), "kind": "std", "pi": None, "sub": "declared-named",
+                              "coq": "call %s %s [%s]" % (cp, mk_args(n), cs(nm)), "fn": f})
+
     # distinct by program text + stream
     seen, uniq = set(), []
     for c in cases:
@@ -575,6 +594,25 @@ def run():
             continue
         if c["kind"] == "module":
             judge_module(ck, c, classify_module)
+            continue
+        if c["kind"] == "std":
+            ck.count(st, key)
+            mv = c.get("model")
+            me = mv[1] if isinstance(mv, tuple) and mv[0] == "AErr" else (mv if isinstance(mv, str) else (mv[0] if mv else None))
+            ck.stat(st, "%s:model:%s:impl:%s" % (c["sub"], me, c["impl"]))
+            rep = dict(rep, fn=c["fn"], sub=c["sub"], model=str(mv), answer=str(a)[:300])
+            if c["impl"] in ("panic", "other") and c["sub"] in ("exact", "declared-named"):
+                # not a scoping question: a well-formed call whose scalar argument the (internal) function unwraps as a tuple;
+                # panics are C12's subject (std._eq / std.tuple_every / std.tuple_zip, resolver/transforms.rs)
+                ck.stat(st, "well-formed-call-panics(C12):" + c["fn"])
+            elif c["impl"] in ("panic", "other"):
+                ck.violation("std-table: calling %s panics" % c["fn"], rep)
+            elif c["sub"] == "surplus" and not (me == "ETooManyArgs" and c["impl"] == "err:too-many"):
+                ck.disagreement("std-table: one positional argument more than %s declares is not rejected as `Too many arguments` (model %s, implementation %s)" % (c["fn"], me, c["impl"]), rep, None)
+            elif c["sub"] == "unknown-named" and not (me == "EUnknownNamed" and c["impl"] == "err:unknown-named"):
+                ck.disagreement("std-table: an unknown named argument of %s is not rejected as such (model %s, implementation %s)" % (c["fn"], me, c["impl"]), rep, None)
+            elif c["sub"] in ("exact", "declared-named") and (me in ("ETooManyArgs", "EUnknownNamed") or c["impl"] in ("err:too-many", "err:unknown-named")):
+                ck.disagreement("std-table: the declared arguments of %s are rejected as surplus / unknown (model %s, implementation %s): the signature table is wrong" % (c["fn"], me, c["impl"]), rep, None)
             continue
         if not base_ok.get(c["pi"], False):
             # the generator produced a base program the implementation rejects: its edits prove nothing
